@@ -3,6 +3,7 @@
    and nothing is left pending on a socket (every pending operation has become an aborted
    completion that is delivered harmlessly). *)
 From Via Require Import M_Char M_Encode M_Parse M_Receive M_Server P_Server.
+From Via Require Import M_Client P_Client.
 Local Open Scope N_scope.
 
 From Via Require Import P_C09 P_Shapes.
@@ -12,4 +13,27 @@ Theorem C11_close_leaves_nothing : forall w, Forall conn_ok (w_conns w) ->
   count_http w1 = 0%nat /\ count_comms w1 = 0%nat /\ pending_ops w1 = [].
 Proof. exact server_close_leaves_nothing. Qed.
 
+(* ---- the client ---- *)
+(* over every event history of the client state machine (completions in any order and with any result, late
+   completions of cancelled operations, any application calls): a disconnected event is only ever the first
+   one after a connected event, so a connection is never reported twice *)
+Theorem C11_client_disconnection_at_most_once : forall o es, disc_ok false (snd (k_run o (cl_init o) es)) = true.
+Proof. exact client_disconnection_signalled_at_most_once. Qed.
+
+(* close() and the destructor report an open connection once and leave nothing pending on the socket *)
+Theorem C11_client_close_reports : forall o d k, k_connected k = true -> k_open k = true ->
+  let r := k_client_close o d k in
+  k_connected (fst r) = false /\ k_open (fst r) = false /\ k_read_pending (fst r) = false /\ k_write (fst r) = None /\
+  k_connect_pending (fst r) = false /\ k_handshake_pending (fst r) = false /\ k_tls_sd_pending (fst r) = false /\
+  length (filter is_disc (snd r)) = 1%nat.
+Proof. exact client_close_reports. Qed.
+
+(* whatever completes after the client was destroyed, the application is not called *)
+Theorem C11_client_silent_after_destruction : forall o es k, k_alive k = false -> k_undefined k = false ->
+  forallb silent (snd (k_run o k es)) = true.
+Proof. intros o es k. exact (dead_run_silent o es k). Qed.
+
 Print Assumptions C11_close_leaves_nothing.
+Print Assumptions C11_client_disconnection_at_most_once.
+Print Assumptions C11_client_close_reports.
+Print Assumptions C11_client_silent_after_destruction.
